@@ -4,6 +4,82 @@ import numpy as np
 from harness import common, gen, api
 
 LEVEL = "proof"
+IMPORTS = ["From MuxV Require Import Base.Num Base.Vec3 Base.FInst Model.Helpers Model.Assemble Model.AssembleF."]
+ASM_CASES, ASM_DESCR = [], []
+
+
+def _t3(v):
+    from harness.common import fhex
+    return "(%s, %s, %s)" % (fhex(v[0]), fhex(v[1]), fhex(v[2]))
+
+
+def assemble_cases(chk, sc):
+    """the scene's Earth-frame arrays against Model/Assemble.v: control points, the nodes and joints every control point sees (own aircraft:
+    effective line, other aircraft: actual line), node-to-control-point vectors"""
+    from harness.common import fhex, cbool
+    rng = chk.rng
+    objs = list(sc._airplane_objects)
+    slices = list(sc._airplane_slices)
+    scale = max(1.0, float(np.max(np.abs(sc._PC))))
+    atol = fhex(1e-9 * scale)
+    for a, sl in zip(objs, slices):
+        q = "(Q4 %s %s %s %s)" % tuple(fhex(x) for x in a.q)
+        p = _t3(a.p_bar)
+        rows = "[" + "; ".join("(%s, %s)" % (_t3(a.PC[j]), _t3(sc._PC[sl.start + j])) for j in range(a.N)) + "]"
+        ASM_CASES.append("chk_points %s %s %s %s" % (atol, q, p, rows))
+        ASM_DESCR.append(dict(what="control-points", aircraft=a.name))
+        own = rng.sample(range(sl.start, sl.stop), min(2, a.N))
+        others = [i for i in range(sc._N) if i < sl.start or i >= sl.stop]
+        seen_from = own + (rng.sample(others, min(2, len(others))) if others else [])
+        for i in seen_from:
+            same = sl.start <= i < sl.stop
+            il = i - sl.start
+            for eff, act, got, what in ((a.P0_eff, a.P0, sc._P0, "P0"), (a.P1_eff, a.P1, sc._P1, "P1"),
+                                        (a.P0_joint_eff, a.P0_joint, sc._P0_joint, "P0_joint"), (a.P1_joint_eff, a.P1_joint, sc._P1_joint, "P1_joint")):
+                rws = "[" + "; ".join("(%s, %s, %s, %s)" % (cbool(same), _t3(eff[il, j] if same else act[j]), _t3(act[j]), _t3(got[i, sl.start + j]))
+                                       for j in range(a.N)) + "]"
+                ASM_CASES.append("chk_nodes_seen %s %s %s %s" % (atol, q, p, rws))
+                ASM_DESCR.append(dict(what="nodes-seen:" + what, horseshoes_of=a.name, control_point=i, same_aircraft=same))
+            chk.count("assemble-row=%s" % ("own" if same else "other"))
+            rv = "[" + "; ".join("(%s, %s, %s)" % (_t3(sc._PC[i]), _t3(sc._P0[i, sl.start + j]), _t3(sc._r_0[i, sl.start + j])) for j in range(a.N)) + "]"
+            ASM_CASES.append("chk_rvecs %s %s" % (atol, rv))
+            ASM_DESCR.append(dict(what="r_0", horseshoes_of=a.name, control_point=i))
+            rv = "[" + "; ".join("(%s, %s, %s)" % (_t3(sc._PC[i]), _t3(sc._P1_joint[i, sl.start + j]), _t3(sc._r_1_joint[i, sl.start + j])) for j in range(a.N)) + "]"
+            ASM_CASES.append("chk_rvecs %s %s" % (atol, rv))
+            ASM_DESCR.append(dict(what="r_1_joint", horseshoes_of=a.name, control_point=i))
+
+
+def split_equivalence(chk, MX):
+    """the same two lifting surfaces described as one aircraft with two wings and as two aircraft: the same circulation"""
+    rng = chk.rng
+    af = {"type": "linear", "aL0": -0.02, "CLa": 6.2, "CmL0": -0.03, "Cma": 0.0, "CD0": 0.006, "CD1": 0.0, "CD2": 0.01, "geometry": {"NACA": "2410"}}
+
+    def wing(ID, b, dx, dz, reid):
+        return {"ID": ID, "side": "both", "is_main": True, "semispan": b, "chord": [[0.0, 1.0], [1.0, 0.6]], "sweep": 15.0, "dihedral": 3.0, "airfoil": "af",
+                "grid": {"N": 4, "reid_corrections": reid}, "connect_to": {"ID": 0, "dx": dx, "dz": dz}}
+    for it in range(chk.q(2, 8)):
+        reid = it % 2 == 0
+        dx, dz = round(rng.uniform(-8.0, -4.0), 2), round(rng.uniform(-0.8, 0.8), 2)
+        ref = {"area": 8.0, "longitudinal_length": 1.0, "lateral_length": 8.0}
+        one = {"CG": [0, 0, 0], "weight": 10.0, "airfoils": {"af": af}, "reference": ref, "wings": {"front": wing(1, 4.0, 0.0, 0.0, reid), "rear": wing(2, 2.5, dx, dz, reid)}}
+        A = {"CG": [0, 0, 0], "weight": 10.0, "airfoils": {"af": af}, "reference": ref, "wings": {"front": wing(1, 4.0, 0.0, 0.0, reid)}}
+        B = {"CG": [0, 0, 0], "weight": 10.0, "airfoils": {"af": af}, "reference": ref, "wings": {"rear": wing(1, 2.5, 0.0, 0.0, reid)}}
+        st = {"velocity": 100.0, "alpha": round(rng.uniform(1.0, 5.0), 2), "beta": round(rng.uniform(-3.0, 3.0), 2)}
+        sd = {"solver": {"type": "nonlinear"}, "scene": {"atmosphere": {"rho": 0.0023769}}}
+        try:
+            d1 = gen.build_scene(MX, sd, [("a", one, st, {})]).distributions()["a"]
+            d2 = gen.build_scene(MX, sd, [("A", A, st, {}), ("B", B, dict(st, position=[dx, 0.0, dz]), {})]).distributions()
+        except Exception as e:
+            chk.count("split_error=" + type(e).__name__)
+            continue
+        chk.case(dict(kind="split", reid=reid, it=it), nontrivial=True)
+        for seg, nm in (("front_left", "A"), ("front_right", "A"), ("rear_left", "B"), ("rear_right", "B")):
+            c1, c2 = np.array(d1[seg]["circ"], dtype=float), np.array(d2[nm][seg]["circ"], dtype=float)
+            if not np.allclose(c1, c2, rtol=1e-7, atol=1e-9 * float(np.max(np.abs(c1)))):
+                chk.violation("split:one-aircraft-vs-two", dict(kind="multi", what="two surfaces as one aircraft and as two aircraft give different circulations",
+                                                                 segment=seg, reid=reid, offset=[dx, dz], state=st, one_aircraft=c1, two_aircraft=c2))
+                return
+
 
 
 def gen_fleet(chk, n, first_frames=("body",)):
@@ -37,6 +113,8 @@ def run(chk):
         try:
             base_sc = gen.build_scene(MX, sd, acs)
             base = api.solve(base_sc, report_by_segment=True)
+            if it % 2 == 0:
+                assemble_cases(chk, base_sc)
         except Exception as e:
             chk.count("error=" + type(e).__name__)
             continue
@@ -155,6 +233,14 @@ def run(chk):
                 chk.count("nonconverged")
                 continue
             chk.violation("raises:%s:%s" % (kind, type(e).__name__), dict(kind="multi", what=kind, scene=sd, aircraft=acs, error=repr(e)))
+    split_equivalence(chk, MX)
+    failing, nfiles, errors = common.run_cases("C13", IMPORTS, [], ASM_CASES)
+    chk.cov["correspondence_cases"] = len(ASM_CASES)
+    chk.cov["traces_validated_against_impl"] = len(ASM_CASES)
+    if errors:
+        chk.fail_obligation("correspondence:C13(case files do not compile)", "\n".join(errors)[-3000:])
+    elif failing and not chk.violations:
+        chk.fail_obligation("correspondence:Model/Assemble.v:" + ASM_DESCR[failing[0]]["what"], json.dumps(dict(first=ASM_DESCR[failing[0]], n=len(failing)), default=str)[:3000])
     return chk.finish(rule="fleets of 2-3 generated aircraft at random relative positions/attitudes (wind, standard or constant density): permuted insertion "
                            "order; add a guest and remove it; remove the first aircraft; analyses restricted to a named aircraft (string and list); "
                            "separation 1e5 lengths vs each aircraft alone; coefficients x each aircraft's own q S l")
